@@ -297,10 +297,17 @@ def check_case(case, out, versions):
 def _worker(items, base):
     out = {"counters": {}, "outcomes": {}, "violations": [], "samples": []}
     for case in items:
+        if "lifecycle" in case:
+            # router life cycles (compile - register - compile): the contract and the dispatch of the last
+            # compilation must cover exactly the methods registered by then
+            from . import c08
+            c08.check_lifecycle(case, out, _VERSIONS)
+            out["counters"]["states"] = out["counters"].get("states", 0) + 1
+            continue
         check_case(case, out, _VERSIONS)
         out["counters"]["states"] = out["counters"].get("states", 0) + 1
         out["counters"]["transitions"] = out["counters"].get("transitions", 0) + max(1, len(case["params"]))
-    if items and base % 53 == 0:
+    if items and base % 53 == 0 and "params" in items[0]:
         out["samples"].append({"signature": method_sig("meth", items[0]["params"], items[0].get("ret")), "case": items[0]})
     return out
 
@@ -404,7 +411,8 @@ def run(tier):
     rep.rule = ("every method signature of the enumerated families (a state) x 2 value variants (+ a wrong-transaction-type "
                 "variant) x versions; groups built by algosdk's AtomicTransactionComposer")
     _VERSIONS = (6, 8, 10) if tier == "quick" else (6, 7, 8, 9, 10)
-    items = cases(tier) + contract_cases()
+    from . import c08
+    items = cases(tier) + contract_cases() + c08.lifecycle_cases(4 if tier == "quick" else 5)
     rep.bounds["signatures"] = len(items)
     rep.bounds["versions"] = list(_VERSIONS)
     for sh in common.pmap_shards(_worker, items, shard_size=3, order_seed=rep.seed):
@@ -418,7 +426,11 @@ def run(tier):
 
 def replay(case):
     out = {"counters": {}, "outcomes": {}, "violations": [], "samples": []}
-    check_case(case["case"], out, (case["version"],))
+    if "lifecycle" in case["case"]:
+        from . import c08
+        c08.check_lifecycle(case["case"], out, (case["version"],))
+    else:
+        check_case(case["case"], out, (case["version"],))
     for v in out["violations"][:5]:
         print("still violates:", v["title"][:300])
     return bool(out["violations"])
